@@ -79,4 +79,16 @@ def run_mutants(prop):
         print("  mutant %-40s %s" % (os.path.basename(diff), status), flush=True)
         if status not in ("detected", "silent-ok"):
             print("    " + detail.replace("\n", "\n    "))
+    # the kept seeded changes of this property (written by sub-agents that saw only the property text; each confirmed to compile, pass the
+    # repository's tests and change behaviour): every one must be reported
+    for sd in sorted(glob.glob(os.path.join(VERIF, "seeded", prop + "-*"))):
+        diff = os.path.join(sd, "patch.diff")
+        if not os.path.exists(diff):
+            continue
+        meta = json.load(open(os.path.join(sd, "meta.json"))) if os.path.exists(os.path.join(sd, "meta.json")) else {}
+        status, detail = run_one(prop, diff, meta.get("expect_key", ""))
+        results.append({"mutant": os.path.relpath(diff, VERIF), "expect": meta.get("expect_key", "(any finding)"), "what": meta.get("breaks"), "status": status, "detail": detail})
+        print("  seeded %-40s %s" % (os.path.basename(sd), status), flush=True)
+        if status != "detected":
+            print("    " + detail.replace("\n", "\n    "))
     return results
